@@ -1130,6 +1130,10 @@ func c16StripLens(c *Ctx) {
 						good = false
 					}
 				}
+				// len(marker) of the very value searched for (a local `mk := []byte("…")`)
+				if lc, _ := callOf(opd); lc != nil && calleeID(&lc.Call) == "builtin len" && sameValue(lc.Call.Args[0], ci.Common().Args[1]) {
+					found = true
+				}
 				// len(marker) of the very variable searched for
 				if lc, _ := callOf(opd); lc != nil && calleeID(&lc.Call) == "builtin len" && mkGlobal != nil {
 					if _, g2, ok2 := c.globalConstBytes(lc.Call.Args[0]); ok2 {
